@@ -740,7 +740,7 @@ class TracedSolver(Solver):
             collectPath=bool(p.collect_path), ncb=self._ncb, display=display,
             debug=bool(logger.getEffectiveLevel() <= logging.DEBUG), rcond=bool(p.report_rcond),
             m0=bool(self.problem.num_cons == 0), derivCheck=bool(p.deriv_check != DerivCheck.NoCheck),
-            algKey=self._algkey, twin=self._twin, obj=self._obj_id,
+            algKey=self._algkey, twin=self._twin, obj=self._obj_id, wellposed=bool(getattr(self, "_wellposed", False)),
         )
 
     def solve(self, x0=None, y0=None):
